@@ -19,6 +19,8 @@ func init() {
 }
 
 func runC15(r *Run, p *Prog) {
+	// I5: an idle stop releases everything a shutdown releases (the reset covers every member the serving call sets)
+	siblingRules(r, p, "C14", []string{"L7"}, "I5")
 	ro := DiscoverRoles(p)
 	T, cg := ro.T, ro.CG
 	m := BuildServeModel(p, ro)
